@@ -293,6 +293,50 @@ func gen(rw bool) func(rng *rand.Rand, tier string) []string {
 		}
 		var out []string
 		nlocks := 0
+		if !rw && rng.Intn(3) == 0 {
+			// mutex templates: (a) the holder releases while a waiter is cancelled (hand-over vs give-up);
+			// (b) the same release function called twice concurrently while others try to acquire
+			var out []string
+			nw := 1 + rng.Intn(3)
+			if rng.Intn(2) == 0 {
+				out = append(out, "trylock w")
+			} else {
+				out = append(out, "lock w", "settle")
+			}
+			for i := 0; i < nw; i++ {
+				out = append(out, "lock w")
+			}
+			out = append(out, "settle")
+			var acts []string
+			if rng.Intn(2) == 0 {
+				acts = append(acts, "arelease 0")
+				if rng.Intn(2) == 0 {
+					acts = append(acts, fmt.Sprintf("cancel %d", 1+rng.Intn(nw)))
+				} else {
+					// whoever wins the hand-over is being cancelled at that very moment
+					for i := 1; i <= nw; i++ {
+						acts = append(acts, fmt.Sprintf("cancel %d", i))
+					}
+					acts = append(acts, "lock w")
+				}
+			} else {
+				acts = append(acts, "arelease 0", "arelease 0")
+				if rng.Intn(2) == 0 {
+					acts = append(acts, "atrylock w")
+				}
+			}
+			if rng.Intn(3) == 0 {
+				acts = append(acts, fmt.Sprintf("cancel %d", 1+rng.Intn(nw)))
+			}
+			rng.Shuffle(len(acts), func(i, j int) { acts[i], acts[j] = acts[j], acts[i] })
+			out = append(out, acts...)
+			out = append(out, "quiesce")
+			for i := 1; i <= nw+1; i++ {
+				out = append(out, fmt.Sprintf("arelease %d", i), fmt.Sprintf("arelease %d", i), "settle")
+			}
+			out = append(out, "trylock w", "quiesce")
+			return out
+		}
 		if rw && rng.Intn(4) == 0 {
 			// template: holders, a waiting writer, readers/writers queued behind it, then the holders
 			// release and the writer is cancelled at (almost) the same time — the hand-over windows
